@@ -35,6 +35,8 @@ POOL = [
     ("i64max", "9223372036854775807"), ("i64min", "(-9223372036854775808)"), ("bigint", "(2^64)"), ("bigrep2", "((2^70+2)-2^70)"),
     ("rational", "(1/2)"), ("float", "0.5"), ("negzero", "(-0.0)"), ("inf", "(1.0/0.0)"), ("nan", "(0.0/0.0)"), ("complex", "(1+2i)"),
     ("emptystr", '""'), ("str", '"a"'), ("uchar", '"é"'), ("chhi", "'\\u{e000}'"), ("ustr", '"héllo wörld"'),
+    # long enough to be abbreviated wherever a value is rendered into a message, with 3-byte and 2-byte characters at every small byte offset
+    ("longu", '"日本語のテキストαβγ"'),
     ("emptylist", "[]"), ("list", "[1, 2, 3]"), ("nested", "[[1, 2], [3]]"), ("mixed", '[1, "a", null]'),
     ("emptydict", "{}"), ("dict", '{1: 2, "a": [3]}'), ("defdict", "{:0}"), ("dictfn", "{1: len, 2: [1 to 3]}"),
     ("vector", "V(1, 2)"), ("emptybytes", "B[]"), ("badutf8", "B[255, 0, 65]"),
@@ -42,10 +44,10 @@ POOL = [
     ("builtin", "(+)"), ("closure", "(\\x -> x)"), ("type", "int"), ("instance", "Foo(1, [2])"),
 ]
 RISKY = {"i64max", "i64min", "bigint", "inf", "infstream"}
-QUICK = ["null", "int0", "intneg", "bigrep2", "i64max", "i64min", "rational", "nan", "str", "uchar", "emptylist", "list", "dict", "dictfn", "vector", "badutf8",
+QUICK = ["null", "int0", "intneg", "bigrep2", "i64max", "i64min", "rational", "nan", "str", "uchar", "longu", "emptylist", "list", "dict", "dictfn", "vector", "badutf8",
          "stream", "infstream", "closure"]
 SUB3 = ["null", "int0", "intneg", "int2", "float", "str", "uchar", "emptylist", "list", "dict", "stream", "closure", "i64min"]
-SUB3_QUICK = ["int0", "str", "list", "closure", "null"]
+SUB3_QUICK = ["int0", "str", "list", "closure", "null"]     # (the three-hole pool of the quick tier also gets i64max, dict, uchar, ustr, stream - see cases())
 # a lazily built result is measured (len, truthiness, last index, slices) and advanced (up to 40 elements) inside the try: a stream that can only fail when consumed has not "ended with a value"
 PRE = ["struct Foo (a, b)", "force_ := \\v -> (if (v is stream) (try len(v) catch _ -> 0; try (not v) catch _ -> 0; try v[1:2] catch _ -> 0; try (if (len(v) < 1000) [v[-1], v[-2:]]) catch _ -> 0; list(v take 40)) else v)"] + ["p_%s := %s" % (n, s) for n, s in POOL]
 
